@@ -323,6 +323,12 @@ impl WorkStealingExecutor {
 
     /// Submit a task for execution
     pub fn submit(&self, task: Box<dyn Task>) -> Result<()> {
+        // After shutdown() no worker is left to run the task: refuse it instead of
+        // accepting it into a queue that nobody will ever poll
+        if self.shutdown.load(Ordering::Relaxed) {
+            return Err(ZiporaError::configuration("executor has been shut down"));
+        }
+
         // Try to submit to a worker queue first
         let worker_id = self.next_worker.fetch_add(1, Ordering::Relaxed) % self.workers.len();
 
